@@ -21,6 +21,15 @@ theorem rot_defaults : Extracted.rotDefaults = ({} : Rot.Cfg) := by decide
 theorem rot_enums : Extracted.rotSchemes = ["Index", "Date", "DateAndTime"] ∧
     Extracted.rotFreqs = ["Disabled", "Daily", "Hourly", "Minutely"] := by decide
 
+/-- `_rotate_files` removes every file in excess of `max_backup_files` (the repair of F18 is in place) -/
+theorem rot_deletes_all_excess : Extracted.rotParams.deletesAllExcess = true := by decide
+
+/-- the backup bound after a rotation, for the code as extracted -/
+theorem C14_bound_extracted (z : Nat → Int) (w : Rot.World) (st : Rot.Stmt) (ts : Nat)
+    (hdue : Rot.timeDue w ts ∨ Rot.sizeDue w st.size ts) (hr : Rot.rotates w) :
+    (Rot.write Extracted.rotParams z w st ts).sink.created.length - 1 ≤ w.sink.cfg.maxBackup :=
+  Rot.C14_index_backup_bound_after_rotation _ rot_deletes_all_excess z w st ts hdue hr
+
 /-- C14 (Index scheme) for the code as extracted — whatever `_time_rotation`'s advance rule is -/
 theorem C14_extracted (z : Nat → Int) (fs0 : Rot.FS) (hd : Rot.DirOK fs0) (c0 : Rot.Cfg) (start0 : Nat)
     (hc0 : Rot.RestartOK c0) (ops : List Rot.Op) (hops : ∀ op ∈ ops, Rot.OpAppend op) :
